@@ -29,7 +29,7 @@ ASSUMED = [
              "the All arm (find_selected_all) is not under contract", "keys": ["fn verif_other_arm"]},
     {"what": "declare_as_column is external here (under contract in unit lower_cols): declared_rel(expr, cid); `arg.ty.as_ref().is_some_and(|x| x.is_relation())` is the uninterpreted "
              "is_relation_typed(arg); error construction, write_pl and format! are opaque; `\"\".to_string()` is the empty text; `name.to_string()` keeps the text; Option::or has its std meaning",
-     "keys": ["fn declare_as_column", "spec fn declared_rel", "fn ty_is_relation", "spec fn is_relation_typed", "fn opaque_error", "fn empty_string", "fn str_to_string", "Option::<T>::or", "struct Lowerer"]},
+     "keys": ["fn declare_as_column", "spec fn declared_rel", "fn ty_is_relation", "spec fn is_relation_typed", "fn opaque_error", "fn empty_string", "fn str_to_string", "Option::<T>::or", "struct Lowerer", "struct ColMap", "struct NodeMap", "fn view", "fn get"]},
 ]
 TRUSTED = [
     "oracle (C01 / C02 / C08): the RQ expression denotes what the PL expression denotes only if lowering is a homomorphism: a literal is that literal (C08), a parameter that parameter, "
@@ -73,7 +73,18 @@ pub uninterp spec fn is_relation_typed(e: pl::Expr) -> bool;
 // what a (recursive) call of lower_expr may return for an input: the contract of lower_expr, as a relation
 pub uninterp spec fn lower_rel(e: pl::Expr, r: rq::Expr) -> bool;
 pub uninterp spec fn declared_rel(e: pl::Expr, c: CId) -> bool;
-pub struct Lowerer { pub rest: OpaqueT }
+// the Lowerer's record of what each node was lowered to (same shims as unit lower_ident): present so that text which consults it is decided, not UNDECIDED
+#[verifier::external_body] pub struct ColMap { _p: u8 }
+pub enum LoweredTarget { Compute(CId), Input(ColMap) }
+#[verifier::external_body] pub struct NodeMap { _p: u8 }
+impl NodeMap {
+    pub uninterp spec fn view(&self) -> Map<usize, LoweredTarget>;
+    #[verifier::external_body]
+    pub fn get(&self, k: &usize) -> (r: Option<&LoweredTarget>)
+        ensures match r { Some(t) => self.view().contains_key(*k) && *t == self.view()[*k], None => !self.view().contains_key(*k) },
+    { unimplemented!() }
+}
+pub struct Lowerer { pub node_mapping: NodeMap, pub rest: OpaqueT }
 impl Lowerer {
     #[verifier::external_body] pub fn lower_expr_rec(&mut self, e: pl::Expr) -> (r: Result<rq::Expr, Error>) ensures r is Ok ==> lower_rel(e, r->Ok_0), { unimplemented!() }
     #[verifier::external_body] pub fn declare_as_column(&mut self, e: pl::Expr, is_aggregation: bool) -> (r: Result<CId, Error>) ensures r is Ok ==> declared_rel(e, r->Ok_0), { unimplemented!() }
